@@ -214,10 +214,10 @@ Section Top.
   Proof. intros K (cs & x & E & H1 & H2 & H3 & H4 & G). exists cs, x. do 5 (split; [assumption|]). apply K. exact G. Qed.
 
   Lemma stays_below d d1 q s s' : chain (s_fs s) d q d1 -> stays d1 s s' -> stays d s s'.
-  Proof. intros Hq (C & A & L & K). split; auto. split; auto. eapply above_mono; eauto. Qed.
+  Proof. intros Hq (C & A & L & K & P). split; auto. split; auto. eapply above_mono; eauto. Qed.
 
   Lemma stays_keeps d s s' : stays d s s' -> keeps_new (s_fs s) (s_fs s').
-  Proof. intros (_ & _ & _ & K). exact K. Qed.
+  Proof. intros (_ & _ & _ & K & _). exact K. Qed.
 
   Lemma chown_fixed_spec s s' r cs d x i o : Tgt (s_fs s) cs d x -> names_ss (s_fs s) d x i ->
     chown_fixed c o (tpath cs x) s = (s', r) -> mstep s s'.
@@ -280,16 +280,16 @@ Section Top.
     change (render (dcs ++ cs ++ [x])) with (tpath cs x) in H.
     assert (Hdr2 : is_dir (s_fs s2) dr = true) by (eapply chain_end_dir; apply (cx_root _ _ _ _ _ C2)).
     (* the directory is there: done *)
-    assert (Hdone : forall s3 i n, s_fs s3 = s_fs s2 -> s_links s3 = s_links s2 ->
+    assert (Hdone : forall s3 i n, s_fs s3 = s_fs s2 -> s_links s3 = s_links s2 -> s_parents s3 = s_parents s2 ->
               blookup x (dents (s_fs s2) dpar) = Some i -> get (s_fs s2) i = Some n -> kind_is_dir n = true ->
               mk_post (cs ++ [x]) s s3 (inl created)).
-    { intros s3 i n F3 L3 Hb Hg Hk. split; [eapply stays_trans; [exact Hdr|exact S2|apply stays_same; auto]|].
+    { intros s3 i n F3 L3 Q3 Hb Hg Hk. split; [eapply stays_trans; [exact Hdr|exact S2|apply stays_same; auto]|].
       split; [congruence|]. intros cr Hc. inversion Hc; subst cr. rewrite F3. split; [|exact Hcr].
       exists i. eapply chain_snoc; eauto. unfold is_dir, dir_of. rewrite Hg. unfold kind_is_dir in Hk.
       destruct n as [[? ?|?|?|? ?] ?]; simpl in *; auto; discriminate. }
     rewrite bind_run, sys_run in H. cbn [fst snd] in H. rewrite sys_lstat_fs in H.
     pose proof (t_lstat c f0 dr dcs (s_fs s2) cs dpar x T2) as Hl1.
-    set (s3 := {| s_fs := s_fs s2; s_links := s_links s2; s_reads := s_reads s2 |}) in H.
+    set (s3 := {| s_fs := s_fs s2; s_links := s_links s2; s_parents := s_parents s2; s_reads := s_reads s2 |}) in H.
     assert (S3 : stays dr s s3) by (eapply stays_trans; [exact Hdr|exact S2|apply stays_same; auto]).
     destruct (match snd (sys_lstat c (s_fs s2) (tpath cs x)) with RStat _ n1 => kind_is_dir n1 | _ => false end) eqn:Ek1.
     { cbn [ret] in H. injection H as <- <-.
@@ -310,7 +310,7 @@ Section Top.
       rewrite bind_run, sys_run in H. cbn [fst snd] in H. rewrite sys_lstat_fs in H.
       assert (T4 : Tgt f4 cs dpar x) by (eapply (tgt_stays c f0 dr dcs s3 (mk s3 f4)); eauto).
       pose proof (t_lstat c f0 dr dcs f4 cs dpar x T4) as Hl3. cbn [s_fs mk] in H.
-      set (s5 := {| s_fs := f4; s_links := _; s_reads := _ |}) in H.
+      set (s5 := {| s_fs := f4; s_links := _; s_parents := _; s_reads := _ |}) in H.
       destruct (match snd (sys_lstat c f4 (tpath cs x)) with RStat _ n3 => kind_is_dir n3 | _ => false end) eqn:Ek3.
       + cbn [ret] in H. injection H as <- <-.
         destruct (snd (sys_lstat c f4 (tpath cs x))) as [|?|i n|?|?|?]; try discriminate.
@@ -331,24 +331,24 @@ Section Top.
       destruct (chown_fixed c o (tpath cs x) (mk s3 f4)) as [s5 [[]|e]] eqn:E5.
       2:{ injection H as <- <-. pose proof (chown_fixed_spec _ _ _ cs dpar x nw o T4 N4 E5) as M5.
           split; [eapply stays_trans; [exact Hdr|exact S4r|apply mstep_stays; auto]|]. split; [|discriminate].
-          destruct M5 as [_ E]. rewrite E. simpl. congruence. }
+          destruct M5 as (_ & E & _). rewrite E. simpl. congruence. }
       pose proof (chown_fixed_spec _ _ _ cs dpar x nw o T4 N4 E5) as M5.
       rewrite bind_run in H.
       assert (T5 := mstep_tgt c f0 dr dcs _ _ _ _ _ T4 M5). assert (N5 := mstep_names c f0 dr dcs _ _ _ _ _ N4 M5).
       destruct (utimes_opt c (tpath cs x) (o_utime o) s5) as [s6 [[]|e]] eqn:E6.
       2:{ injection H as <- <-. pose proof (utimes_opt_spec _ _ _ cs dpar x nw _ T5 N5 E6) as M6.
           split; [eapply stays_trans; [exact Hdr|exact S4r|apply mstep_stays; eapply mstep_trans; eauto]|]. split; [|discriminate].
-          destruct M5 as [_ E], M6 as [_ E']. rewrite E', E. simpl. congruence. }
+          destruct M5 as (_ & E & _), M6 as (_ & E' & _). rewrite E', E. simpl. congruence. }
       pose proof (utimes_opt_spec _ _ _ cs dpar x nw _ T5 N5 E6) as M6.
       cbn [ret] in H. injection H as <- <-.
       assert (M46 : mstep (mk s3 f4) s6) by (eapply mstep_trans; eauto).
       assert (S46 : stays dpar (mk s3 f4) s6) by (apply mstep_stays; auto).
       split; [eapply stays_trans; [exact Hdr|exact S4r|apply mstep_stays; auto]|].
-      split; [destruct M46 as [_ E]; rewrite E; simpl; congruence|].
+      split; [destruct M46 as (_ & E & _); rewrite E; simpl; congruence|].
       intros cr Hcr2. inversion Hcr2; subst cr.
       assert (T6 := mstep_tgt c f0 dr dcs _ _ _ _ _ T4 M46). assert (N6 := mstep_names c f0 dr dcs _ _ _ _ _ N4 M46).
       assert (Hi6 : is_dir (s_fs s6) nw = true).
-      { destruct M46 as [(_ & _ & _ & I6 & _) _]. rewrite I6. exact Hi. }
+      { destruct M46 as ((_ & _ & _ & I6 & _) & _). rewrite I6. exact Hi. }
       split.
       + exists nw. eapply chain_snoc; [apply T6|apply N6|exact Hi6].
       + apply Forall_app. split.
@@ -401,7 +401,7 @@ Section Top.
       split; [apply stays_refl; auto|split; auto; discriminate]. }
     cbn [mkdir_all] in H. rewrite bind_run, sys_run in H. cbn [fst snd] in H. rewrite sys_stat_fs in H.
     assert (Hdr : is_dir (s_fs s) dr = true) by (eapply chain_end_dir; apply (cx_root _ _ _ _ _ C)).
-    set (s1 := {| s_fs := s_fs s; s_links := s_links s; s_reads := s_reads s |}) in H.
+    set (s1 := {| s_fs := s_fs s; s_links := s_links s; s_parents := s_parents s; s_reads := s_reads s |}) in H.
     assert (S1 : stays dr s s1) by (apply stays_same; auto).
     assert (Hslow : forall r0, snd (sys_stat c (s_fs s) (render (dcs ++ cs))) = r0 -> (forall i n, r0 <> RStat i n) ->
               mkdir_slow (mkdir_all k c o) c o (render (dcs ++ cs)) s1 = (s', r) -> mk_post cs s s' r).
